@@ -1169,7 +1169,7 @@ def _drive(case, ctx, w, servers, client, tymist):
         if reached:
             ctx.count("downgrade_redirect_issued")
     # evidence
-    sig = [case["tls"], case["reconnectable"]]
+    sig = [case["tls"], case["reconnectable"], bool(case.get("own_queues"))]
     for r in reqs:
         sig.append([r["method"], bkind_of(r), [[h["status"], h["target"], h["delay"] > 0, h["dribble"] > 0, h["framing"],
                                   "mid" if h["close_mid"] is not None else ("after" if h["connclose"] else "")] for h in r["hops"]]])
